@@ -251,6 +251,7 @@ func idleBits(ev []byte) string {
 func RunScenario(sc *Scenario) *RunResult {
 	port := NewPort(sc.Init, sc.Replies, sc.WF, sc.RF, sc.FF)
 	port.WS = idxSet(sc.WS)
+	port.Fault = faultErrs[(len(sc.Calls)+len(sc.WF)+2*len(sc.RF)+len(sc.Tag))%len(faultErrs)] // the kind of error a failing operation reports takes turns
 	port.RDelay = sc.RDelay
 	port.EOFData = sc.EOFData
 	var cfg vedirect.Config
@@ -321,11 +322,15 @@ func RunScenario(sc *Scenario) *RunResult {
 		res.Results = append(res.Results, out)
 		res.PerCallWrites = append(res.PerCallWrites, port.NW-wFrom)
 		callStrs = append(callStrs, callName(c)+"@"+bits)
-		// a retry that found the line idle for 100 ms although nothing in the scenario is slow, in a call that really lasted
+		// a retry that found the line idle for 100 ms although nothing in the scenario takes that long, in a call that really lasted
 		// that long: either the machine stalled the process (transient) or the code under test lets time pass between its
 		// attempts (repeatable). The expectations are applied all the same; Sink.Scenario repeats a scenario whose only
 		// findings come with this mark and reports them if they persist.
-		if len(bits) > 1 && strings.Contains(bits[1:], "1") && len(sc.RDelay) == 0 && elapsed >= 95*time.Millisecond {
+		slowest := 0
+		for _, d := range sc.RDelay {
+			slowest = max(slowest, d)
+		}
+		if len(bits) > 1 && strings.Contains(bits[1:], "1") && slowest < 100 && elapsed >= 95*time.Millisecond {
 			res.Stalled++
 		}
 		const stalled = false
